@@ -30,7 +30,7 @@ def trusted_base(pid, axioms):
     return tb
 
 
-HOOK_COMMITS = []
+HOOK_COMMITS = ["297256b"]
 
 RT_TRUST = [
     "regexp: only a byte-level fragment of RE2 is modelled (classes, ., concatenation, alternation, * + ? greedy/lazy, groups); "
